@@ -38,3 +38,12 @@ theorem unvisited_add (D S S2 : Set α) (t : α) (h : ∀ x, x ∈ S2 ↔ (x ∈
     tauto
   rw [this]
   exact Set.ncard_sdiff_singleton_lt_of_mem hmem hfin
+
+/-- unvisited.mono: marking more elements never increases the measure -/
+theorem unvisited_mono (D S S2 : Set α) (h : ∀ x, x ∈ S → x ∈ S2) (hD : D.Finite) :
+    unvisited D S2 ≤ unvisited D S := by
+  unfold unvisited
+  have hfin : (D \ S).Finite := hD.subset Set.sdiff_subset
+  apply Set.ncard_le_ncard _ hfin
+  intro x hx
+  exact ⟨hx.1, fun hs => hx.2 (h x hs)⟩
